@@ -30,6 +30,9 @@ fn main() {
     if args[1] == "x86" {
         return x86(&args[2], &args[3]);
     }
+    if args[1].starts_with("mips") {
+        return mips(&args[1], &args[2], &args[3]);
+    }
     let (archname, path, tracepath) = (args[1].as_str(), args[2].as_str(), args[3].as_str());
     let mut trace = std::io::BufWriter::new(std::fs::File::create(tracepath).unwrap());
     let mut rep = Report::new();
@@ -242,6 +245,81 @@ fn x86(path: &str, tracepath: &str) {
         if send {
             let mut rec = obs_record(&spec, &inp, &words, obs.map_err(|e| e), ctx_ip);
             rec["arch"] = json!("x86");
+            writeln!(trace, "{}", rec).unwrap();
+        }
+    });
+    trace.flush().unwrap();
+    rep.finish();
+}
+
+// ------------------------------------------------------------------------------------------------ MIPS (WalkerMips.tla)
+fn mips(archname: &str, path: &str, tracepath: &str) {
+    let mut trace = std::io::BufWriter::new(std::fs::File::create(tracepath).unwrap());
+    let mut rep = Report::new();
+    let spec = arch_spec(archname);
+    let p = spec.word as i64;
+    let cfi = |rule: &str| -> String {
+        match rule {
+            "std" => format!(".cfa: $sp {} + .ra: .cfa -{} + ^ $fp: .cfa -{} + ^", 2 * p, p, 2 * p),
+            "raleaf" => ".cfa: $sp 0 + .ra: $ra".to_string(),
+            "nomem" => format!(".cfa: $sp {} + .ra: 4194640", p),
+            "cfaonly" => format!(".cfa: $sp {} + .ra: .cfa -{} + ^", 2 * p, p),
+            _ => panic!("rule"),
+        }
+    };
+    let mut n = 0u64;
+    for_each_case(path, "CASE", |c| {
+        n += 1;
+        let words: Vec<u64> = c["mem"].as_array().unwrap().iter().map(|v| v.as_u64().unwrap()).collect();
+        let f0 = &c["frames"][0];
+        let ctx_ip = f0["ip"].as_u64().unwrap();
+        let regs = vec![("pc".to_string(), ctx_ip), ("sp".to_string(), f0["sp"].as_u64().unwrap()), ("fp".to_string(), f0["fp"].as_u64().unwrap()),
+                        ("ra".to_string(), f0["ra"].as_u64().unwrap()), ("s0".to_string(), f0["cs"].as_u64().unwrap())];
+        let valid: Vec<String> = f0["valid"].as_array().unwrap().iter().map(|v| match v.as_str().unwrap() { "cs" => "s0".to_string(), o => o.to_string() }).collect();
+        let mut symbols = HashMap::new();
+        symbols.insert("m1".to_string(), format!("MODULE Linux mips 000 m1\nFUNC 100 100 0 f1\nFUNC 300 100 0 f2\nFUNC 500 100 0 f3\nSTACK CFI INIT 100 100 {}\nSTACK CFI INIT 500 100 {}\n",
+                                                 cfi(c["rule"].as_str().unwrap()), cfi("cfaonly")));
+        let built = !c["expect"].as_array().unwrap().is_empty();
+        let inp = WalkInput { arch: spec.arch, os: Os::Linux, regs, valid: Some(valid), stack_base: 0x10000, stack_bytes: words_to_bytes(&words, spec.word),
+                              modules: vec![("m1".into(), 0x400000, 0x1000), ("m2".into(), 0x500000, 0x1000)], symbols, track: vec!["fp", "ra", "s0"], frame_cap: words.len() * spec.word + 3 };
+        let obs = guarded(|| run_walk(&inp));
+        rep.evaluations += 1;
+        let model = c["frames"].as_array().unwrap();
+        let mut diff: Option<String> = None;
+        match &obs {
+            Err(pn) => diff = Some(format!("panic:{}", pn)),
+            Ok(o) => {
+                if o.frames.len() != model.len() { diff = Some("frame-count".into()); }
+                for (k, (r, m)) in o.frames.iter().zip(model.iter()).enumerate() {
+                    if diff.is_some() { break; }
+                    let mvalid: Vec<&str> = m["valid"].as_array().unwrap().iter().map(|v| v.as_str().unwrap()).collect();
+                    if r.ip != m["ip"].as_u64().unwrap() { diff = Some(format!("ip@{}", k.min(9))); }
+                    else if r.instr != m["instr"].as_u64().unwrap() { diff = Some("instr".into()); }
+                    else if r.sp != m["sp"].as_u64().unwrap() { diff = Some("sp".into()); }
+                    else if r.trust != m["trust"].as_str().unwrap() { diff = Some("trust".into()); }
+                    else if r.regs["fp"].is_some() != mvalid.contains(&"fp") { diff = Some("fp-validity".into()); }
+                    else if r.regs["fp"].is_some() && r.regs["fp"] != m["fp"].as_u64() { diff = Some("fp-value".into()); }
+                    else if r.regs["s0"].is_some() != mvalid.contains(&"cs") { diff = Some("callee-saved-validity".into()); }
+                    else if r.regs["s0"].is_some() && r.regs["s0"] != m["cs"].as_u64() { diff = Some("callee-saved-value".into()); }
+                    else if r.regs["ra"].is_some() != mvalid.contains(&"ra") { diff = Some("ra-validity".into()); }
+                    rep.class(&format!("frame:{}", r.trust));
+                }
+                if o.frames.len() > 1 { rep.nontrivial(&(c["mem"].to_string(), c["rule"].to_string(), f0.to_string())); }
+            }
+        }
+        rep.class(if built { "built" } else { "any" });
+        let send = diff.is_some() || n % 40 == 0 || built;
+        if let Some(d) = &diff {
+            let kind = if built { "walk-built" } else { "walk-any" };
+            let detail = json!({"arch": archname, "mem": c["mem"], "rule": c["rule"], "context": f0, "model_frames": model,
+                                "real_frames": obs.as_ref().ok().map(|o| o.frames.iter().map(|f| json!({"ip": f.ip, "instr": f.instr, "sp": f.sp, "regs": format!("{:?}", f.regs), "trust": f.trust})).collect::<Vec<_>>())});
+            if built { rep.mismatch(&format!("{}:{}:{}", kind, archname, d), detail); } else { rep.drift(json!({"what": d, "detail": detail})); }
+        } else if built && rep.samples.len() < 5 && model.len() >= 4 {
+            rep.sample(json!({"arch": archname, "stack_words": c["mem"], "chain": c["expect"]}));
+        }
+        if send {
+            let mut rec = obs_record(&spec, &inp, &words, obs.map_err(|e| e), ctx_ip);
+            rec["arch"] = json!("mips");
             writeln!(trace, "{}", rec).unwrap();
         }
     });
